@@ -159,10 +159,6 @@ def pipeline_vp9_full : Prop :=
 
 /-! ### H264 (C06 ∘ C01 ∘ C08 ∘ C10) -/
 
-open Rtp.Spec.Rfc6184 in
-/-- the NAL units of a list of frames, in order -/
-def h264Nals (frames : List H264Frame) : List Bytes := frames.flatMap (fun fr => fr.units.map (·.2))
-
 private theorem h264_calls_nals (B : UInt16) (frames : List H264Frame) :
     (frames.map (H264Frame.call B)).flatMap Rtp.Pred.C10.RtCall.nals = h264Nals frames := by
   induction frames with
@@ -191,7 +187,7 @@ theorem pipeline_h264_history (disable avc : Bool) (pk : Packetizer) (hcfg : cfg
     (hm : overhead pk + 3 ≤ pk.mtu.toNat) (buf : Bytes)
     (frames : List H264Frame) (hw : ∀ fr ∈ frames, fr.WF) :
     histOkWhole pk (frames.map H264Frame.frameIn)
-      (frame avc (delivered disable (h264Nals frames)))
+      (h264Expected disable avc frames)
       (run (h264Pay disable) (h264Depack avc) { pk := pk, st := {} } buf (frames.map H264Frame.frameIn)) = true := by
   obtain ⟨hv, hpt⟩ := cfgOk_parts hcfg
   have hb := budget_toNat pk (by omega : overhead pk ≤ pk.mtu.toNat)
@@ -229,8 +225,8 @@ theorem pipeline_h264 (disable avc : Bool) (pk : Packetizer) (hcfg : cfgOk pk = 
     o.reasm = frame avc (delivered disable (fr.units.map (·.2))) := by
   have h := pipeline_h264_history disable avc pk hcfg hm buf [fr] (by simpa using hw)
   simp only [List.map_cons, List.map_nil, run, histOkWhole, histTrain, wholeOk, Bool.and_eq_true,
-    Bool.and_true, List.flatMap_cons, List.flatMap_nil, List.append_nil, beq_iff_eq, h264Nals] at h
-  exact h
+    Bool.and_true, List.flatMap_cons, List.flatMap_nil, List.append_nil, beq_iff_eq] at h
+  simpa [h264Expected, h264Nals] using h
 
 open Rtp.Spec.Rfc6184 in
 /-- **pipeline_h264_lossless.**  When parameter sets come as SPS, PPS pairs followed by a unit (or
@@ -252,7 +248,40 @@ theorem pipeline_h264_lossless (disable avc : Bool) (pk : Packetizer) (hcfg : cf
       · cases hp
       · simp only [delivered, Bool.false_eq_true, if_false]
         exact Rtp.Proofs.H264.holdback_paired _ hp
-  rwa [this] at h
+  rwa [h264Expected, this] at h
+
+/-! ### the theorems in the shape the driver uses: `wf input → pred input (model input)`
+    (`wf*` and `run*` are what lean/Driver/Kinds/E2E.lean evaluates for the kinds `e2e.*`) -/
+
+theorem pipeline_g711_pred (pk : Packetizer) (fs : List FrameIn) (h : wfG711 pk fs = true) :
+    histOk pk fs (runG711 pk fs) = true := by
+  simp only [wfG711, Bool.and_eq_true, decide_eq_true_eq] at h
+  exact pipeline_g711_history pk h.1.1 h.1.2 fs (framesNonEmpty_iff fs h.2)
+
+theorem pipeline_opus_pred (pk : Packetizer) (fs : List FrameIn) (h : wfOpus pk fs = true) :
+    histOk pk fs (runOpus pk fs) = true := by
+  simp only [wfOpus, Bool.and_eq_true] at h
+  refine pipeline_opus_history pk h.1.1 fs (framesNonEmpty_iff fs h.1.2) ?_
+  intro f hf
+  simpa using (List.all_eq_true.mp h.2) f hf
+
+theorem pipeline_vp8_pred (enable : Bool) (k : Nat) (pk : Packetizer) (r : VP8Packet) (fs : List FrameIn)
+    (h : wfVP8 enable pk fs = true) : histOk pk fs (runVP8 enable k pk r fs) = true := by
+  simp only [wfVP8, Bool.and_eq_true, decide_eq_true_eq] at h
+  exact pipeline_vp8_history enable k pk h.1.1 h.1.2 r fs (framesNonEmpty_iff fs h.2)
+
+theorem pipeline_vp9_flex_pred (st : VP9Pay) (pk : Packetizer) (r : VP9Packet) (fs : List FrameIn)
+    (h : wfVP9Flex st pk fs = true) : histOk pk fs (runVP9 st pk r fs) = true := by
+  simp only [wfVP9Flex, Bool.and_eq_true, decide_eq_true_eq] at h
+  exact pipeline_vp9_flex_history st h.1.1.1.1 h.1.1.1.2 pk h.1.1.2 h.1.2 r fs (framesNonEmpty_iff fs h.2)
+
+theorem pipeline_h264_pred (disable avc : Bool) (pk : Packetizer) (buf : Bytes) (frames : List H264Frame)
+    (h : wfH264 pk frames = true) :
+    histOkWhole pk (frames.map H264Frame.frameIn) (h264Expected disable avc frames)
+      (runH264 disable avc pk buf (frames.map H264Frame.frameIn)) = true := by
+  simp only [wfH264, Bool.and_eq_true, decide_eq_true_eq] at h
+  exact pipeline_h264_history disable avc pk h.1.1 h.1.2 buf frames
+    (fun fr hfr => H264Frame.WF_of_wf fr ((List.all_eq_true.mp h.2) fr hfr))
 
 /-! ### non-vacuity: concrete configurations and frames inside the hypotheses -/
 
